@@ -202,8 +202,6 @@ def classify(o, ln):
     """Why the P-layer refuses the case: re-walk the gets with the model's rules (only to label the witness; TLC decided)."""
     if o.get('ub'):
         return {'kind': 'ub'}
-    if not o['mut'] and o.get('all_put'):
-        return {'kind': 'round-trip-broken'}
     size, typ, raw = o['wire']['size'], o['wire']['type'], o['wire']['raw']
     off = 0
 
@@ -248,6 +246,8 @@ def classify(o, ln):
         if not g['ok']:
             break
         off += n
+    if not o['mut'] and o.get('all_put'):
+        return {'kind': 'round-trip-broken'}
     return {'kind': 'wrong-value-or-unexpected-raise'}
 
 
